@@ -95,6 +95,11 @@ func (v *objectValidator) feedObjectKeyEnd(jsonLexeme lexeme.LexEvent) {
 	v.lastFoundKeyLex = jsonLexeme
 	objectNode, ok := v.node_.(*schema.ObjectNode)
 	if !ok { // mixed node
+		if v.node_.Constraint(constraint.AdditionalPropertiesConstraintType) != nil {
+			// The root of a rule-set of the "or" rule has no properties, all the
+			// keys are decided by its "additionalProperties" rule.
+			return
+		}
 		panic(lexeme.NewLexEventError(
 			v.lastFoundKeyLex,
 			errors.Format(errors.ErrSchemaDoesNotSupportKey, v.lastFoundKeyLex.Value().Unquote().String())),
@@ -110,22 +115,21 @@ func (v *objectValidator) feedObjectKeyEnd(jsonLexeme lexeme.LexEvent) {
 }
 
 func (v *objectValidator) feedObjectValueBegin() ([]validator, bool) {
-	objectNode, ok := v.node_.(*schema.ObjectNode)
-	if !ok {
-		panic(errors.ErrImpossible)
-	}
-
-	childNode, ok := objectNode.ChildByRawKey(v.lastFoundKeyLex.Value())
-	if ok {
-		return NodeValidatorList(childNode, v.rootSchema, v), false
-	}
-
-	// child node not found on schema object
-	if key, ok := v.validateTypeRules(objectNode, v.lastFoundKeyLex.Value()); ok {
-		child, ok := objectNode.ChildByRawKey([]byte(key))
+	// A mixed node (the root of a rule-set of the "or" rule) has no properties,
+	// all its keys are additional ones.
+	if objectNode, ok := v.node_.(*schema.ObjectNode); ok {
+		childNode, ok := objectNode.ChildByRawKey(v.lastFoundKeyLex.Value())
 		if ok {
-			delete(v.requiredKeys, key)
-			return NodeValidatorList(child, v.rootSchema, v), false
+			return NodeValidatorList(childNode, v.rootSchema, v), false
+		}
+
+		// child node not found on schema object
+		if key, ok := v.validateTypeRules(objectNode, v.lastFoundKeyLex.Value()); ok {
+			child, ok := objectNode.ChildByRawKey([]byte(key))
+			if ok {
+				delete(v.requiredKeys, key)
+				return NodeValidatorList(child, v.rootSchema, v), false
+			}
 		}
 	}
 	if c := v.node_.Constraint(constraint.AdditionalPropertiesConstraintType); c != nil {
